@@ -267,9 +267,14 @@ def boundary_at(text, pos):
 
 
 def check_word(rec, rng, w, dict_tt):
-    for spelled in casings(rng, w):
+    for ci, spelled in enumerate(casings(rng, w)):
         ctxs = list(KW_CONTEXTS)
-        ctxs.append((rng.choice(KW_AFTER_WORD), rng.choice([' ', ';', ''])))
+        if ci == 0:
+            # upper-case spelling behind every multi-word starter
+            ctxs += [(L, ' ') for L in KW_AFTER_WORD]
+        else:
+            ctxs.append((rng.choice(KW_AFTER_WORD),
+                         rng.choice([' ', ';', ''])))
         for L, R in ctxs:
             if len(L) > 1 and not boundary_at(L + spelled + R, len(L)):
                 rec.count('words_not_judged_(joined_by_a_multi_word_rule)')
